@@ -83,7 +83,13 @@ class Task:
             # not while disconnected - self.reconnected() starts the task
             # when the connection is established
             return
-        self._task = asyncio.create_task(self._start_internal(), name=self.name)
+        task = asyncio.create_task(self._start_internal(), name=self.name)
+        if self.xknx is None or self._task is not None:
+            # with an eager task factory the first step has already run: it removed
+            # this task or started it again - this instance is not the current one
+            task.cancel()
+            return
+        self._task = task
 
     async def _start_internal(self) -> None:
         """Start a task and handle options."""
